@@ -79,6 +79,9 @@ fn field_section<F: FieldLike>(ctx: &Ctx, out: &mut String, rng: &mut rand_chach
                 pairs.push((a2, a.clone()));
                 pairs.push((b(0), delta.clone()));
                 pairs.push((delta.clone(), f.neg(&delta)));
+                // the same difference on top of an operand whose neighbouring limb has its border bits set
+                let border = f.mul(&((b(0x8000_0000) << (32 * i.saturating_sub(1))) + (b(1) << (32 * ((i + 1) % n32)))), &rinv);
+                pairs.push((border.clone(), f.add(&border, &delta)));
             }
         }
         for (pi, (a, bb)) in pairs.iter().enumerate() {
@@ -91,6 +94,8 @@ fn field_section<F: FieldLike>(ctx: &Ctx, out: &mut String, rng: &mut rand_chach
                 let r = g(|| hx(&to_le(&(form.f)(la, lb).to_b(), n)));
                 let _ = writeln!(out, "{name} {} a={} b={} -> {:?}", form.name, hexs(a), hexs(bb), r);
             }
+            let r = g(|| format!("{:?} eq={} ne={} hash_eq={}", F::cmp_lib(&la, &lb), la == lb, la != lb, F::hash_bytes(&la).1 == F::hash_bytes(&lb).1));
+            let _ = writeln!(out, "{name} cmp/eq/ne/hash a={} b={} -> {:?}", hexs(a), hexs(bb), r);
         }
     }
     let reps = scale;
